@@ -390,6 +390,11 @@ def compare_model(M, interp, op, a, b, node):
         raise AbsRaise(ExcVal('TypeError', ('comparison of datetime64 with a number',)), node)
     if getattr(a, 'narrow', False) or getattr(b, 'narrow', False):
         note_int_arith(interp, tuple(x for x in (a, b) if getattr(x, 'narrow', False)), node)
+    for u, w in ((a, b), (b, a)):
+        if isinstance(u, Vec) and u.dtype in ('i8', 'u1') and dtype_of(w)[0] == 'f8' and any(X.data_atoms(e.d) for e in u.els()):
+            # numpy promotes the integer array to float64 for the comparison (exact up to 2**53 only)
+            interp.event('int-float-compare', node=node)
+            break
     pairs, tmpl = broadcast(interp, a, b, node)
     for ea, eb in pairs:
         for e in (ea, eb):
